@@ -114,7 +114,8 @@ AllInRange(s, loc, t, r, us) ==
 RECURSIVE FreshName(_, _)
 FreshName(n, used) == IF n \notin used THEN n ELSE FreshName(n \o <<".", "1">>, used)
 
-Digit(k) == CASE k = 1 -> "1" [] k = 2 -> "2" [] k = 3 -> "3" [] k = 4 -> "4" [] OTHER -> "9"
+Digit(k) == CASE k = 1 -> "1" [] k = 2 -> "2" [] k = 3 -> "3" [] k = 4 -> "4" [] k = 5 -> "5" [] k = 6 -> "6"
+              [] k = 7 -> "7" [] k = 8 -> "8" [] OTHER -> "9"
 
 DelUid(s, u) ==
   IF u \notin Uids(s) THEN s
@@ -134,7 +135,7 @@ UidOfName(s, n) == IF ColByName(s, n) > 0 THEN s.cols[ColByName(s, n)].uid ELSE 
 UidOfRole(s, t, r) == IF t \in Types /\ r >= 0 /\ r < Len(s.loc[t]) THEN s.loc[t][r + 1] ELSE -1
 
 AddCols(s, nadd, radix, t, r, val) ==
-  LET base == IF nadd = 1 THEN << <<radix>> >> ELSE [k \in 1..nadd |-> <<radix, "-", Digit(k)>>]
+  LET base == IF nadd = 1 THEN <<radix>> ELSE [k \in 1..nadd |-> radix \o <<"-", Digit(k)>>]
       F[k \in 0..nadd] ==
          IF k = 0 THEN s
          ELSE LET p == F[k-1]
@@ -243,7 +244,7 @@ NamesOK(c, pre, post) ==
      LET u == post.cols[i].uid IN
      IF u \in Uids(pre) /\ pre.cols[ColOf(pre, u)].name = ref.cols[i].name
      THEN post.cols[i].name = ref.cols[i].name                     \* frame
-     ELSE LET want == CASE c.op = "addColumnsByConstant" -> <<c.radix>>
+     ELSE LET want == CASE c.op = "addColumnsByConstant" -> c.radix
                         [] c.op \in {"setName", "setNameByUID", "setNameByColIdx"} -> c.new
                         [] OTHER -> ref.cols[i].name
               others == {post.cols[j].name : j \in DOMAIN post.cols \ {i}}
@@ -278,7 +279,7 @@ UidArgs   == 0..(MaxUid - 1)
 ColArgs   == 0..(MaxCols - 1)
 RankArgs  == {-1, 0, 1, 2}
 NameArgs  == {<<"a">>, <<"b">>, <<"a", ".", "1">>, <<"q">>}
-RadixArgs == {"a", "b"}
+RadixArgs == {<<"a">>, <<"b">>}
 IechArgs  == 0..(MaxNech - 1)
 Pairs(S)  == {<<x, y>> : x \in S, y \in S}
 DPairs(S) == {p \in Pairs(S) : p[1] # p[2]}
@@ -288,7 +289,7 @@ Catalogue ==
        \*  "a-1", so multiple creation -- which names its columns radix-1, radix-2 -- uses radix "b" only)
        {[op |-> "addColumnsByConstant", nadd |-> 1, radix |-> x, t |-> t, r |-> r, val |-> 1] :
             x \in RadixArgs, t \in RoleArgs, r \in {-1, 0, 1}}
-  \cup {[op |-> "addColumnsByConstant", nadd |-> 2, radix |-> "b", t |-> t, r |-> r, val |-> 1] :
+  \cup {[op |-> "addColumnsByConstant", nadd |-> 2, radix |-> <<"b">>, t |-> t, r |-> r, val |-> 1] :
             t \in RoleArgs, r \in {-1, 0, 1}}
   \cup {[op |-> "deleteColumnByUID", uid |-> u] : u \in UidArgs}
   \cup {[op |-> "deleteColumnByColIdx", col |-> k] : k \in ColArgs}
@@ -308,9 +309,9 @@ Catalogue ==
             p \in DPairs(ColArgs), t \in Types, r \in {-1, 0}, b \in BOOLEAN}
   \cup {[op |-> "clearLocators", t |-> t] : t \in Types}
   \cup {[op |-> "switchLocator", t |-> p[1], t2 |-> p[2]] : p \in DPairs(Types)}
-  \cup {[op |-> "setName", name |-> n, new |-> <<x>>] : n \in NameArgs, x \in RadixArgs}
-  \cup {[op |-> "setNameByUID", uid |-> u, new |-> <<x>>] : u \in UidArgs, x \in RadixArgs}
-  \cup {[op |-> "setNameByColIdx", col |-> k, new |-> <<x>>] : k \in ColArgs, x \in RadixArgs}
+  \cup {[op |-> "setName", name |-> n, new |-> x] : n \in NameArgs, x \in RadixArgs}
+  \cup {[op |-> "setNameByUID", uid |-> u, new |-> x] : u \in UidArgs, x \in RadixArgs}
+  \cup {[op |-> "setNameByColIdx", col |-> k, new |-> x] : k \in ColArgs, x \in RadixArgs}
   \cup {[op |-> "addSamples", n |-> 1, val |-> 7]}
   \cup {[op |-> "deleteSample", iech |-> i] : i \in IechArgs}
   \cup {[op |-> "setArray", uid |-> u, iech |-> i, val |-> 3] : u \in UidArgs, i \in IechArgs}
